@@ -34,6 +34,7 @@ def check(run):
         run.guard("C12.2.scheme-table", cfg, lambda: rule_scheme(run, F, cfg))
         run.guard("C12.3.party", cfg, lambda: rule_party(run, F, cfg))
         run.guard("C12.4.single-construction", cfg, lambda: rule_single(run, F, cfg))
+        run.guard("C12.5.url-scanner-tables", cfg, lambda: rule_scanner(run, F, cfg))
 
 
 def rule_scheme(run, F, cfg):
@@ -188,3 +189,56 @@ def rule_single(run, F, cfg):
     run.ob("C12.4.single-construction", "c0-trim", okt,
            "Input::new trims leading / trailing C0 control characters and spaces (trim_matches(c0_control_or_space)), "
            "not just Unicode whitespace", config=cfg)
+
+
+def rule_scanner(run, F, cfg):
+    """constant tables of the hand-rolled URL scanner that decide host / scheme classification"""
+    c0 = F.fn("url_parser::parser::c0_control_or_space")
+    e = c0.expr_local(0)
+    run.ob("C12.5.url-scanner-tables", "c0_control_or_space", e == "(arg:ch Le ' ')",
+           f"c0_control_or_space(ch) is `ch <= ' '` (U+0000..=U+0020, space included): `{e}`", site=c0.loc(0), config=cfg)
+    st = F.fn("url_parser::parser::SchemeType::from")
+    variants = [v["name"] for v in F.adt("url_parser::parser::SchemeType")["variants"]]
+    table = {}
+    for p in enumerate_paths(st):
+        if p.end != "return":
+            continue
+        val = path_value(st, p, 0) or ""
+        m = re.search(r"SchemeType::(\w+)", val)
+        lits = [re.search(r'"([^"]*)"\)$', e2).group(1) for e2, v in p.conds if v == 1 and re.search(r'::eq\(.*, "([^"]*)"\)$', e2)]
+        if m:
+            table[lits[-1] if lits else "<other>"] = m.group(1)
+    want = {"http": "SpecialNotFile", "https": "SpecialNotFile", "ws": "SpecialNotFile", "wss": "SpecialNotFile",
+            "ftp": "SpecialNotFile", "gopher": "SpecialNotFile", "file": "File", "<other>": "NotSpecial"}
+    run.ob("C12.5.url-scanner-tables", "SchemeType::from", table == want,
+           f"SchemeType::from classifies {table} (reference {want})", site=st.loc(0), config=cfg)
+    # the scheme is lower-cased while it is scanned, i.e. BEFORE it is classified
+    ps = F.fn("url_parser::parser::Parser::parse_scheme")
+    run.touched(ps)
+    pushes = [ps.expr_operand(t["args"][1]) for b, t in ps.calls(r"^std::string::String::push$")]
+    lowered = [x for x in pushes if "to_ascii_lowercase" in x]
+    run.ob("C12.5.url-scanner-tables", "scheme-lowercased-while-scanned", bool(lowered) and len(pushes) >= 3,
+           f"parse_scheme appends upper-case scheme letters lower-cased ({pushes}); the scheme must be in its "
+           f"canonical form before SchemeType::from classifies it (special vs. non-special parsing rules)",
+           site=ps.loc(0), config=cfg)
+    pw = F.fn("url_parser::parser::Parser::parse_with_scheme")
+    cs = pw.calls(r"SchemeType::from$")
+    ok = len(cs) == 1 and "arg:self.serialization" in pw.expr_operand(cs[0][1]["args"][0])
+    later = [b for b, t in pw.calls(r"make_ascii_lowercase$|to_ascii_lowercase$|to_lowercase$")]
+    run.ob("C12.5.url-scanner-tables", "classified-from-serialization", ok and not later,
+           "parse_with_scheme classifies the already serialised (lower-cased) scheme and does not change its case "
+           "afterwards", site=pw.loc(0), config=cfg)
+    # IPv4/IPv6/domain: the registrable domain always comes from the resolver (no shortcut)
+    gd = F.fn("url_parser::get_host_domain")
+    run.touched(gd)
+    dr = F.fns.get("<url_parser::DefaultResolver as url_parser::ResolvesDomain>::get_host_domain")
+    if dr is not None:
+        calls = [strip_generics(t["callee"]) for b, t in dr.calls() if t.get("local")]
+        parse = dr.calls(r"parse_domain_name$")
+        n_ret = len([1 for kind, b, val, conds, _ in conditional_defs(dr, 0)])
+        ok = len(parse) == 1 and not calls
+        # every non-empty host goes through the public-suffix lookup
+        dom = all(("is_empty" in k) for k in dominating_conditions(dr, parse[0][0])) if parse else False
+        run.ob("C12.5.url-scanner-tables", "domain-always-from-psl", ok and dom,
+               "DefaultResolver::get_host_domain sends every non-empty host through List.parse_domain_name (no "
+               f"fast path that bypasses the public-suffix list); local helpers called: {calls}", site=dr.loc(0), config=cfg)
